@@ -106,6 +106,13 @@ fn run<K: BufKind>(i: &Input, obs: &mut Obs) -> Result<(), Fail> {
     ensure!(r.pop() == Some(Ev::IoEof(0)), "reader-end", "reader did not end with IoErr(Eof, 0)");
     let r: Vec<(Option<usize>, Ev)> = r.into_iter().map(|e| (None, e)).collect();
     judge(&r, i, f1, total, guard, "SmlReader::with_static_buffer::<N>().from_slice.read", &stream)?;
+    // ... and over the embedded-hal source (non-blocking API; a serial source has no end of input)
+    {
+        let fe = crate::props::c11::Fe { api: 2, poll_next: (i.m.len() + i.cap) % 2 == 0, cap: Some(K::CAP) };
+        let r = crate::props::c11::run_cfg(fe, &drive::script_of(&stream)).map_err(|m| Fail::new("reader-step-cap", m))?;
+        let r: Vec<(Option<usize>, Ev)> = r.into_iter().map(|(p, e)| (Some(p), e)).collect();
+        judge(&r, i, f1, total, guard, "SmlReader::with_static_buffer::<N>().from_eh_reader (non-blocking API)", &stream)?;
+    }
     if K::CAP == 8192 {
         let mut r = drive::reader_slice_default(&stream, Poll::Next, 1).map_err(|m| Fail::new("reader-step-cap", m))?;
         ensure!(r.pop() == Some(Ev::End), "reader-end", "default reader did not end with None");
